@@ -42,10 +42,10 @@ INVARIANT SrcSameCalls
 logging.getLogger().addHandler(logging.NullHandler())   # ppci warns through logging; keep the check's output clean
 IR_INT = {"i8": 1, "u8": 1, "i16": 2, "u16": 2, "i32": 4, "u32": 4, "i64": 8, "u64": 8}
 WORKERS = 8
-QUICK_PROBES = 500            # sampled probes in the quick tier (plus the sentinels); thorough runs all of them
+QUICK_PROBES = 400            # sampled probes in the quick tier (plus the sentinels); thorough runs all of them
 QUICK_PROBE_VECTORS = 4
 QUICK_PROGRAMS = 40
-THOROUGH_PROBE_VECTORS = 40
+THOROUGH_PROBE_VECTORS = 16
 # probes that are always run with all their vectors: they decide which construct classes the random programs avoid
 SENTINELS = {"bin:<:c8,u8", "bin:>=:i16,u16", "bin:==:c8,u16", "unary:-:u8", "unary:~:u16", "unary:-:c8",
              "bin:<<:u32,i64", "type-of:<<:i32,u64", "type-of:>>:u16,u32",
@@ -303,7 +303,7 @@ def run_src(ctx, items, label):
     for fn in os.listdir(obsdir):
         with open(os.path.join(obsdir, fn)) as fh:
             r = json.load(fh)
-        obs[(r["i"] - 1, r["av"] - 1)] = r["obs"]
+        obs[(r["i"] - 1, r["av"] - 1)] = dict(r["obs"], steps=r["steps"])
         for a in r["acts"]:
             ctx.cov["actions"]["Src." + a] = ctx.cov["actions"].get("Src." + a, 0) + 1
     shutil.rmtree(obsdir, ignore_errors=True)
@@ -317,8 +317,9 @@ def run_src(ctx, items, label):
 def judge(ctx, items, obs, label):
     cases = []
     for k, it in enumerate(items):
+        os_ = [obs[(k, a)] for a in range(len(it["vecs"]))]
         cases.append({"id": it["key"], "mods": [it["pm"]], "fn": it["f"]["n"], "argv": it["ir_argv"], "ext": it["ext"],
-                      "fuel": 20000, "obs": [obs[(k, a)] for a in range(len(it["vecs"]))]})
+                      "fuel": min(60000, 2000 + 100 * max(o["steps"] for o in os_)), "obs": os_})
     path = ctx.trace_file(cases, "ir.json")
     res = ctx.tlc("Src_IR", IR_CFG, label=label, env={"TRACE_FILE": path}, continue_=True, workers=WORKERS, heap="12g",
                   coverage=os.environ.get("C01_COVERAGE", "1") == "1")
@@ -498,6 +499,27 @@ def micro_programs():
                   {"k": "dowhile", "c": B("<", V("k"), L(0)), "b": [ASG(V("s"), L(100), "+=")]},
                   RET(V("s"))])]),
         [([10], "ok", 1 + 3 + 4 + 100), ([1], "ok", 101), ([0], "ok", 100)])
+    # continue in a for loop goes to the increment, break leaves the innermost loop only
+    add("for-continue-break",
+        PROG([FN("f", "i32", [("n", "i32")],
+                 [DECL("s", "i32", L(0)),
+                  {"k": "for", "v": "i", "lo": 0, "hi": V("n"),
+                   "b": [IF(B("==", V("i"), L(1)), [{"k": "continue"}]),
+                         {"k": "for", "v": "j", "lo": 1, "hi": L(4),
+                          "b": [IF(B("==", V("j"), L(3)), [{"k": "break"}]), ASG(V("s"), B("*", V("j"), L(10)), "+=")]},
+                         IF(B("==", V("i"), L(4)), [{"k": "break"}]),
+                         ASG(V("s"), V("i"), "+=")]},
+                  RET(V("s"))])]),
+        [([10], "ok", 30 * 4 + 0 + 2 + 3), ([2], "ok", 30), ([0], "ok", 0)])
+    add("dowhile-continue",
+        PROG([FN("f", "i32", [("n", "i32")],
+                 [DECL("s", "i32", L(0)), DECL("k", "i32", L(0)),
+                  {"k": "dowhile", "c": B("<", V("k"), V("n")),
+                   "b": [{"k": "inc", "lhs": V("k"), "op": "++"},
+                         IF(B("==", B("%", V("k"), L(2)), L(0)), [{"k": "continue"}]),     # continue re-tests the condition
+                         ASG(V("s"), V("k"), "+=")]},
+                  RET(V("s"))])]),
+        [([5], "ok", 1 + 3 + 5), ([0], "ok", 1), ([2], "ok", 1)])
     # switch: default in the middle, fall-through, break leaves only the switch, continue goes to the loop
     cases = [{"v": 1, "b": [ASG(V("r"), L(10), "+=")], "brk": False},
              {"v": None, "b": [ASG(V("r"), L(100), "+=")], "brk": True},
@@ -682,6 +704,10 @@ class Engine:
             f = [x for x in prog["funcs"] if x["n"] == prog["main"]][0]
             n = None if key in SENTINELS or len(f["params"]) < 2 else (THOROUGH_PROBE_VECTORS if thorough else QUICK_PROBE_VECTORS)
             items.append(make_item(key, prog, probe_vectors(f, small, ctx.rng, n), [], "probe"))
+        # the hand-written micro programs of the model check are also judged against ppci (loops, switch, calls, ...)
+        for name, prog, runs, ext, _ in micro_programs():
+            if name != "fuel":
+                items.append(make_item("micro:" + name, prog, [r[0] for r in runs], ext, "probe"))
         ctx.cov["probes_total"] = len(allp)
         ctx.cov["probes_run"] = len(items)
         stat = {}
@@ -690,7 +716,7 @@ class Engine:
         ctx.cov["construct_classes_avoided_in_random_programs"] = classes
 
         # ---- stage 2: random programs (without the construct classes whose probes failed in stage 1) ------
-        rnd = random_items(ctx, 500 if thorough else QUICK_PROGRAMS, 10 if thorough else 6, classes)
+        rnd = random_items(ctx, 300 if thorough else QUICK_PROGRAMS, 8 if thorough else 6, classes)
         self.stage(ctx, rnd, "random", stat, 250)
         ctx.cov["src_status"] = stat
         tot = sum(v for k, v in stat.items() if ":" not in k)
